@@ -71,11 +71,12 @@ func enumPlans() []plan {
 }
 
 type enumCase struct {
-	Pos      int           `json:"position"`
-	Trigger  string        `json:"trigger"` // read-error, write-error, close, none
-	Plan     plan          `json:"redial_plan"`
-	Interval time.Duration `json:"reconnect_interval"`
-	GivenTID bool          `json:"given_transport_id"`
+	Pos        int           `json:"position"`
+	Trigger    string        `json:"trigger"` // read-error, write-error, close, none
+	Plan       plan          `json:"redial_plan"`
+	Interval   time.Duration `json:"reconnect_interval"`
+	GivenTID   bool          `json:"given_transport_id"`
+	CloseFails bool          `json:"underlying_close_reports_error,omitempty"`
 }
 
 func enumCases() []enumCase {
@@ -92,6 +93,8 @@ func enumCases() []enumCase {
 			}
 		}
 		cs = append(cs, enumCase{Pos: pos, Trigger: "close", Plan: plan{Name: "close", Budget: 5}, Interval: ivs[k%len(ivs)], GivenTID: k%3 != 0})
+		k++
+		cs = append(cs, enumCase{Pos: pos, Trigger: "close", Plan: plan{Name: "close-reports-error", Budget: 5}, Interval: ivs[k%len(ivs)], GivenTID: k%3 != 0, CloseFails: true})
 		k++
 	}
 	return cs
@@ -130,7 +133,7 @@ func (s *session) issue(f func()) bool {
 }
 
 func runEnum(ec enumCase) vrun.Result {
-	s, err := openSession(sessCfg{Budget: ec.Plan.Budget, Interval: ec.Interval, GivenTID: ec.GivenTID}, true)
+	s, err := openSession(sessCfg{Budget: ec.Plan.Budget, Interval: ec.Interval, GivenTID: ec.GivenTID, CloseFails: ec.CloseFails}, true)
 	if err != nil {
 		return vrun.Inconcl("initial Dial failed: " + err.Error())
 	}
